@@ -99,6 +99,110 @@ def drop_suffix_to(v, k):
     return NOTFOUND
 
 
+def _piece_len(p):
+    if isinstance(p, str):
+        return len(p)
+    if isinstance(p, Digits) and p.single:
+        return 1
+    return None
+
+
+def slice_fixed(v, lo, hi):
+    """v[lo:hi] for concrete 0 <= lo <= hi when every piece up to position hi has a known length (literals and
+    single-character pieces); the pieces after hi may be anything"""
+    from .lib import str_from_parts
+    ps = _parts(v)
+    if ps is None or not isinstance(lo, int) or not isinstance(hi, int) or lo < 0 or hi < lo:
+        return NOTFOUND
+    out = []
+    pos = 0
+    for p in ps:
+        if pos >= hi:
+            break
+        n = _piece_len(p)
+        if n is None:
+            return NOTFOUND
+        a, b = max(lo, pos), min(hi, pos + n)
+        if a < b:
+            if isinstance(p, str):
+                out.append(p[a - pos:b - pos])
+            else:
+                out.append(p)
+        pos += n
+    if pos < hi:
+        return NOTFOUND       # the string may be shorter than hi
+    return str_from_parts(out) if out else ''
+
+
+def drop_fixed(v, k):
+    """v[k:] for a concrete k >= 0 when the pieces covering the first k characters have known lengths"""
+    from .lib import str_from_parts
+    ps = _parts(v)
+    if ps is None or not isinstance(k, int) or k < 0:
+        return NOTFOUND
+    pos = 0
+    for i, p in enumerate(ps):
+        if pos == k:
+            return str_from_parts(list(ps[i:])) if ps[i:] else ''
+        n = _piece_len(p)
+        if n is None:
+            return NOTFOUND
+        if pos + n > k:
+            if isinstance(p, str):
+                return str_from_parts([p[k - pos:]] + list(ps[i + 1:]))
+            return NOTFOUND
+        pos += n
+    return '' if pos == k else NOTFOUND
+
+
+def find_stripped_self(v, needle):
+    """v.find(needle) when needle is v with some leading WHITE SPACE removed (the shape of s.index(s.strip()) /
+    s.index(s.lstrip())): the pieces of needle are the tail pieces of v, the characters dropped in front are blanks and
+    needle starts with a non-blank character, so the first occurrence is exactly where the dropped prefix ends"""
+    ph, pn = _parts(v), _parts(needle)
+    if ph is None or pn is None or not pn or not ph:
+        return NOTFOUND
+    first = pn[0]
+    if isinstance(first, str):
+        if not first or first[0].isspace():
+            return NOTFOUND
+    elif not (isinstance(first, Digits) and not any(c.isspace() for c in first.alphabet)):
+        return NOTFOUND
+    # the haystack may continue after the needle (needle right-stripped as well): compare the needle against a window
+    for i in range(len(ph)):
+        h = ph[i]
+        dropped = ph[:i]
+        if not all(isinstance(d, str) and d.isspace() for d in dropped):
+            break
+        k = sum(len(d) for d in dropped)
+        if isinstance(first, str) and isinstance(h, str):
+            # the first needle literal is the haystack literal without its leading blanks
+            lead = len(h) - len(h.lstrip())
+            if h[lead:].startswith(first) and _same_tail(ph[i + 1:], pn[1:], h[lead:], first):
+                return k + lead
+        elif h is first and _same_tail(ph[i + 1:], pn[1:], None, None):
+            return k
+    return NOTFOUND
+
+
+def _same_tail(th, tn, h_lit, n_lit):
+    """the needle's remaining pieces are a prefix of the haystack's remaining pieces (identical piece objects / equal
+    literals; a last needle literal may be a prefix of the haystack literal)"""
+    if h_lit is not None and h_lit != n_lit and tn:
+        return False
+    if len(tn) > len(th):
+        return False
+    for j, pn_ in enumerate(tn):
+        ph_ = th[j]
+        if isinstance(pn_, str) and isinstance(ph_, str):
+            if pn_ == ph_ or (j == len(tn) - 1 and ph_.startswith(pn_)):
+                continue
+            return False
+        if pn_ is not ph_:
+            return False
+    return True
+
+
 def contains(v, lit):
     ps = _parts(v)
     if ps is None or not isinstance(lit, str) or lit == '':
@@ -307,6 +411,26 @@ def strip(v):
         ps[-1] = ps[-1].rstrip()
         if ps[-1] == '' and len(ps) > 1 and isinstance(ps[-2], OpaqueStr):
             return NOTFOUND
+    return str_from_parts(ps)
+
+
+def strip_side(v, side):
+    """str.rstrip() / str.lstrip() without arguments on a structured string whose end piece on that side is a literal"""
+    from .lib import str_from_parts
+    ps = _parts(v)
+    if ps is None or not ps:
+        return NOTFOUND if ps is None else ''
+    k = -1 if side == 'r' else 0
+    if _is_open(ps[k]):
+        return NOTFOUND
+    ps = list(ps)
+    if isinstance(ps[k], str):
+        ps[k] = ps[k].rstrip() if side == 'r' else ps[k].lstrip()
+        nb = (-2 if side == 'r' else 1)
+        if ps[k] == '' and len(ps) > 1 and isinstance(ps[nb], OpaqueStr):
+            return NOTFOUND
+    elif isinstance(ps[k], OpaqueStr):
+        return NOTFOUND
     return str_from_parts(ps)
 
 
